@@ -7,6 +7,7 @@ import subprocess
 import tempfile
 import itertools
 from hypothesis import strategies as st
+from ..strat import ints
 from .. import specs, build, proc
 from ..core import Result, viol, exc_sig, VERIF
 from ..observe import observe, decode_one, dv_meta, all_vectors, lcg_vectors, Obs
@@ -30,7 +31,7 @@ ALPHABET = ['decode', 'decode_nocreate', 'enumerate', 'fix', 'free', 'mutate', '
 
 @st.composite
 def _case(draw, tier):
-    kind = draw(st.integers(0, 5))
+    kind = draw(ints(0, 5))
     if kind == 0:
         # two connection choices that are active together (caches keyed by earlier connection choices)
         spec = draw(specs.sel_spec(min_nodes=3, max_nodes=5, max_incompat=0, p_extra=False))
@@ -42,18 +43,18 @@ def _case(draw, tier):
             spec = draw(specs.add_dvs(spec, max_dv=1))
     else:
         spec = draw(specs.full_spec(max_nodes=8, p_conn=0.2, p_dv=0.5, p_con=0.1, small_conn=True))
-    if draw(st.integers(0, 2)) == 0:
+    if draw(ints(0, 2)) == 0:
         spec = draw(specs.add_metrics(spec, max_met=2))
-    n = draw(st.integers(2, 6 if tier == 'quick' else 8))
-    ops = [[draw(st.sampled_from(OPS)), draw(st.integers(0, 60)), draw(st.integers(0, 60))] for _ in range(n)]
+    n = draw(ints(2, 6 if tier == 'quick' else 8))
+    ops = [[draw(st.sampled_from(OPS)), draw(ints(0, 60)), draw(ints(0, 60))] for _ in range(n)]
     template = draw(st.sampled_from(['random', 'fixfree', 'mutate']))
     if template == 'fixfree':
-        ops = [['fix', draw(st.integers(0, 60)), draw(st.integers(0, 60))]]+ops[:2]+[['free', 0, 0]]+ops[2:4]
+        ops = [['fix', draw(ints(0, 60)), draw(ints(0, 60))]]+ops[:2]+[['free', 0, 0]]+ops[2:4]
     elif template == 'mutate':
-        ops = [['decode', draw(st.integers(0, 60)), 0], ['mutate', draw(st.integers(0, 60)), 0],
-               ['decode', draw(st.integers(0, 60)), 0]]+ops[:2]
+        ops = [['decode', draw(ints(0, 60)), 0], ['mutate', draw(ints(0, 60)), 0],
+               ['decode', draw(ints(0, 60)), 0]]+ops[:2]
     return {'spec': spec, 'enc': draw(st.sampled_from(['COMPLETE', 'FAST'])), 'ops': ops,
-            'vseed': draw(st.integers(0, 9999))}
+            'vseed': draw(ints(0, 9999))}
 
 
 def strategy(tier):
